@@ -547,8 +547,12 @@ impl EffectiveAuthority {
         }
         let mut obligations = self.baseline_obligations(permission);
         for statement in statements {
+            // An allow confers authority the way a Grant does, and its
+            // classification ceiling bounds it the same way.
             if statement.effect != "allow"
                 || !self.statement_matches(statement, permission, &resource, auth, &now)
+                || !(resource.is_space_scope()
+                    || reaches_classification(&statement.constraints, &resource))
             {
                 continue;
             }
